@@ -121,6 +121,8 @@ class Vhdx(Parser):
             "metadata_region": [("omit_region", enc_vhdx.G_META)],
             "metadata_signature": [("sig", "metadata", x) for x in self._sigflips(b"metadata")],
             "required_item": [("omit_item", g) for g in (enc_vhdx.G_FILE_PARAMS, enc_vhdx.G_DISK_SIZE, enc_vhdx.G_LSS, enc_vhdx.G_DISK_ID)],
+            # an item this reader does not know, flagged IsRequired (0x4), alone or with IsUser (0x1) / IsVirtualDisk (0x2)
+            "unknown_required_item": [("unknown_item", uuid.UUID(int=g), fl) for g in (0xDEADBEEF, enc_vhdx.G_DISK_SIZE.int ^ 1) for fl in (0x4, 0x5, 0x6, 0x7)],
             "locator_type": [("locator_type", uuid.UUID(int=k)) for k in (0, 1, enc_vhdx.G_VHDX_LOCATOR.int ^ 1, enc_vhdx.G_VHDX_LOCATOR.int ^ (1 << 127))],
             "parent_resolved": [("missing_parent",)],
             "bat_region": [("omit_region", enc_vhdx.G_BAT)],
@@ -138,7 +140,7 @@ class Vhdx(Parser):
 
     def open(self, variants):
         from dissect.hypervisor.disk.vhdx import VHDX
-        sigs, omit_r, omit_i = {}, [], []
+        sigs, omit_r, omit_i, extra = {}, [], [], []
         has_parent = "locator_type" in variants or "parent_resolved" in variants
         ltype = enc_vhdx.G_VHDX_LOCATOR
         parent_exists = has_parent
@@ -151,6 +153,8 @@ class Vhdx(Parser):
                 omit_i.append(v[1])
             elif v[0] == "locator_type":
                 ltype = v[1]
+            elif v[0] == "unknown_item":
+                extra.append((v[1], b"\x11" * 16, v[2]))
             elif v[0] == "missing_parent":
                 parent_exists = False
         d = tempfile.mkdtemp(prefix="c12-vhdx-", dir=self.work)
@@ -158,7 +162,7 @@ class Vhdx(Parser):
             loc = {"parent_linkage": "{1}", "relative_path": ".\\parent.vhdx", "absolute_win32_path": "C:\\nowhere\\parent.vhdx"} if has_parent else None
             vf, _ = enc_vhdx.build([(enc_vhdx.ST_FULL, 0)] if not has_parent else [(enc_vhdx.ST_NOT_PRESENT, None)], block_size=1 << 20, sector_size=512,
                                    disk_size=1 << 20, sigs=sigs, omit_regions=omit_r, omit_items=omit_i, has_parent=has_parent, locator=loc,
-                                   locator_type=ltype, seqs=(5, 6))
+                                   locator_type=ltype, seqs=(5, 6), extra_items=extra)
             vf.materialise(os.path.join(d, "child.vhdx"))
             if has_parent and parent_exists:
                 pv, _ = enc_vhdx.build([(enc_vhdx.ST_FULL, 0)], block_size=1 << 20, sector_size=512, disk_size=1 << 20, file_id=3)
@@ -299,18 +303,25 @@ class HyperV(Parser):
                 "version": [("version", x) for x in (0, 1, 0x300, 0x3FF, 0x401, 0x500, 0x4000, 0x00040000, 0xFFFFFFFF)],
                 "replay_log_signature": [("sig", "replay", x) for x in sf(enc_hyperv.SIG_REPLAY, 4)],
                 "object_table_signature": [("sig", "objtab", x) for x in sf(enc_hyperv.SIG_OBJTAB, 4)],
+                # a second object table reached through an ObjectTable entry, placed behind or in front of the first one
+                "chained_object_table_signature": [("chain", where, x) for where in (0x1800, 0x60000) for x in sf(enc_hyperv.SIG_OBJTAB, 4)[::3] + [0, enc_hyperv.SIG_KEYTAB]],
                 "key_table_signature": [("sig", "keytab", x) for x in sf(enc_hyperv.SIG_KEYTAB, 2)]}
 
     def open(self, variants):
         from dissect.hypervisor.descriptor.hyperv import HyperVFile
-        sigs, version = {}, 0x400
+        sigs, version, chain = {}, 0x400, None
         for v in variants.values():
             if v[0] == "sig":
                 sigs[v[1]] = v[2]
+            elif v[0] == "chain":
+                chain = v
             else:
                 version = v[1]
         tables, fobjs, _ = enc_hyperv.plan_tables(self.nodes)
-        b = enc_hyperv.build(tables, fobjs, hdr_seqs=(9, 3), sigs=sigs, version=version)
+        # the valid file already chains a second (empty) object table, at either placement
+        where = chain[1] if chain else 0x1800
+        b = enc_hyperv.build(tables, fobjs, hdr_seqs=(9, 3), sigs=sigs, version=version, extra_objects=[(enc_hyperv.OBJ_OBJTAB, where, 0x1000, 1)],
+                             more_objtabs={where: [(enc_hyperv.OBJ_FREE, 0, 0, 0)]}, more_sigs=({where: chain[2]} if chain else None))
         h = HyperVFile(io.BytesIO(b))
         if h["k"].value != 5:
             raise AssertionError("value")
@@ -387,7 +398,11 @@ class KeysafeP(Parser):
 
     def gates(self):
         return {"identifier": [("ident", x) for x in ("vmware:keys", "Vmware:key", "vmware:key2", "", "vmware", "vmware:KEY")],
-                "locator_kind": [("kind", k) for k in ("rawkey", "ldap", "script", "role", "fqid", "phrase2", "Phrase", "")]}
+                "locator_kind": [("kind", k) for k in ("rawkey", "ldap", "script", "role", "fqid", "phrase2", "Phrase", "")],
+                # algorithm identifiers of a phrase locator / pair that this reader does not implement
+                "pass2key": [("alg", "PBKDF2-HMAC-SHA-1", x) for x in ("PBKDF2-HMAC-MD5", "PBKDF2-HMAC-SHA-512", "pbkdf2-hmac-sha-1", "SCRYPT", "", "PBKDF2-HMAC-SHA-1-128")],
+                "phrase_cipher": [("alg", "AES-256", x) for x in ("XTS-AES-256", "DES3-192", "aes-256", "AES-512", "AES-CTR-128", "CAMELLIA-256", "", "AES-64", "AES-256-GCM")],
+                "hmac": [("alg", "HMAC-SHA-1", x) for x in ("HMAC-MD5", "HMAC-SHA-512", "hmac-sha-1", "", "HMAC-SHA-1-96", "NONE")]}
 
     def open(self, variants):
         from dissect.hypervisor.descriptor.vmx import VMX
@@ -398,6 +413,11 @@ class KeysafeP(Parser):
                 ks = v[1] + ks[len("vmware:key"):]
             elif v[0] == "kind":
                 ks = ks.replace("pair/(phrase/", f"pair/({v[1]}/")
+            elif v[0] == "alg":
+                # the names appear percent-escaped (twice inside the phrase locator, once as the pair's MAC)
+                once, twice = enc_vmx.esc(v[1]), enc_vmx.esc(enc_vmx.esc(v[1]))
+                assert once in ks or twice in ks, (v, ks[:200])
+                ks = ks.replace(twice, enc_vmx.esc(enc_vmx.esc(v[2]))).replace(once, enc_vmx.esc(v[2]))
         cfg = 'a = "1"\n'
         text = enc_vmx.vmx_text({"x": "y"}, ks, enc_vmx.blob(bytes(32), cfg.encode(), "HMAC-SHA-1", bytes(16)))
         v = VMX.parse(text)
@@ -462,11 +482,11 @@ def run(ctx):
 _ORDER = {
     "qcow2": ["magic", "version", "cluster_bits", "subcluster_size", "crypt_method", "compression", "data_file", "backing_file"],
     "vhdx": ["file_identifier", "header_signature", "region_signature_1", "region_signature_2", "metadata_region", "metadata_signature",
-             "required_item", "locator_type", "parent_resolved", "bat_region"],
+             "required_item", "unknown_required_item", "locator_type", "parent_resolved", "bat_region"],
     "vdi": ["signature"], "hds": ["signature"], "hdd": ["descriptor_present", "image_type", "parent_image_type"], "vmdk-sparse": ["magic", "footer_magic"],
-    "hyperv": ["header_signature", "version", "replay_log_signature", "object_table_signature", "key_table_signature"],
+    "hyperv": ["header_signature", "version", "replay_log_signature", "object_table_signature", "chained_object_table_signature", "key_table_signature"],
     "envelope": ["magic", "version", "attr_keyinfo", "attr_ciphername", "attr_keyhash", "cipher", "aead_footer_version"],
-    "keystore": ["mode_present", "mode_none"], "keysafe": ["identifier", "locator_kind"],
+    "keystore": ["mode_present", "mode_none"], "keysafe": ["identifier", "locator_kind", "pass2key", "phrase_cipher", "hmac"],
 }
 
 
